@@ -60,10 +60,11 @@ def showBucket (b : Nat) (B : Bucket) : String :=
   s!" {b}:{B.len}:" ++ (if B.items.isEmpty then "-" else ",".intercalate (B.items.map fun it => toString it.id))
     ++ (if B.lock = 0 then "" else "L")
 
-def showTable (s : State) (T : Nat) : String :=
+def showTable (s : Store) (T : Nat) : String :=
   s!" | {T}:u{(s.tab T).used},n{(s.tab T).next}" ++ String.join ((List.range (2 ^ T)).map fun b => showBucket b (s.bk T b))
 
-def dump (s : State) : String :=
+def dump (s0 : State) : String :=
+  let s := s0.m
   s!"top={s.top} w={if s.warned then 1 else 0}" ++
     String.join ((List.range (s.top + 1 - s.nb0)).map fun i => showTable s (s.top - i))
 
@@ -73,8 +74,8 @@ def showPark (s : State) (t : Nat) : String :=
   | .idle => "idle"
   | .rd => "rd"
   | .wr .. => "wr"
-  | .lt => s!"lt:{tbk s th}"
-  | .lo hd _ => s!"lo:{hd}:{s.hf th.op.key hd}"
+  | .lt => s!"lt:{tbk s.m th}"
+  | .lo hd _ => s!"lo:{hd}:{s.m.hf th.op.key hd}"
   | .du hd _ _ => s!"du:{hd}"
   | .cn _ pv _ _ => s!"cn:{pv}"
   | _ => "run"
@@ -160,9 +161,9 @@ def stepLine (c : Option D) (ws0 : List String) : Option D × String :=
       (c, "[" ++ " | ".intercalate ((d.s.thr.take d.nthr).map fun th => " ".intercalate (th.hist.map fun r => showRes r.res)) ++ "]")
     | some d, ["final"] =>
       if d.seq then (c, "bad-op") else
-      (c, dump d.s ++ " all=" ++ showList ((forAll d.s).map fun it => it.id))
+      (c, dump d.s ++ " all=" ++ showList ((forAll d.s.m).map fun it => s!"{it.key}:{it.id}"))
     | some d, ["all"] =>
-      if !d.seq then (c, "bad-op") else (c, showList ((forAll d.s).map fun it => it.id) ++ " | " ++ dump d.s)
+      if !d.seq then (c, "bad-op") else (c, showList ((forAll d.s.m).map fun it => s!"{it.key}:{it.id}") ++ " | " ++ dump d.s)
     | some d, ["dump"] => if !d.seq then (c, "bad-op") else (c, "- | " ++ dump d.s)
     | some d, ["i", k, i] =>
       if !d.seq then (c, "bad-op") else
